@@ -85,14 +85,14 @@ CHECKS = {
     note=TB + "; allocator contract (NULL on failure, realloc keeps the old block on failure); a callee receiving a block is assumed to dereference it; 25 triaged known findings (12 unchecked allocations, leaks on the wcsnorm error exits and the %ls failure path); 'an allocation site runs again while its block is owned' is a verdict only at the fine precision level - wcsnorm_reorder_s/compose_s are explored at the coarse level, where it is listed as not decided (two earlier entries of that kind were false alarms and were removed)"),
  "C01": dict(
     engine="capcheck",
-    technique="relational abstract interpretation of the cursor/budget idiom: linear loop equalities (null space of header-phi increments), lock-step and range candidates proved by induction (Houdini), dominating branch guards, Fourier-Motzkin entailment of 0 <= off and off + size <= declared capacity for every write; path-by-path cursor-and-count accounting of the 91 loops that test their remaining count (room established before each store / bounded block write; cursor advance = count decrease)",
+    technique="relational abstract interpretation of the cursor/budget idiom: linear loop equalities (null space of header-phi increments), lock-step and range candidates proved by induction (Houdini), dominating branch guards, Fourier-Motzkin entailment of 0 <= off and off + size <= declared capacity for every write; path-by-path cursor-and-count accounting of the 91 loops that test their remaining count (room established before each store / bounded block write; cursor advance = count decrease); room clause for the Hangul decomposition routine (linear entailment of dmax >= slot + 1 on every path, selected constants forked)",
     category="other",
     text="For every size relation and content at once: each store, memset/memcpy/memmove, libc writer and clearing/moving helper call in all 243 function definitions carries the obligation that the written range lies inside the buffer's declared capacity (caller's dmax under the truthfulness premise, local arrays, globals). 497 of 632 obligations are discharged (constant-offset accesses the relational domain cannot settle because of correlated branches get a path-sensitive second opinion); undischarged ones are known findings (40 + 5 no-slack, genuine), listed reach limits (95 obligations in functions the domain cannot treat: unrolled primitives, smoothsort, Unicode tables, second-pass scans) or violations. The truthfulness premise is followed to the API boundary: for the 113 public wrapper macros (preprocessor macro table of the public headers against the callee's parameter names) every object-size parameter receives BOS() of the macro parameter that is passed as the operand it describes, and same-named parameters are forwarded unswapped. Both object-size branches are in the IR and covered; the thorough tier repeats the analysis on the no-slack configuration (an access identical to one of the default build is the same finding).",
     design_ref="DESIGN.md §3.2, §4 C01",
     note=TB + "; truthfulness premise; unsigned wrap-around ignored; functions in tables/cap_reach.json are not analysed and not claimed"),
  "C02": dict(
     engine="capcheck",
-    technique="same relational abstract interpretation as C01 applied to every load and reading effect; facts must hold at the evaluation of the access (deref-before-counter loops fail); NUL-bounded libc readers on length-declared buffers are undischargeable by construction; sibling cross-check of symmetric copy loops (a counter one copy steps and tests against an object-size limit while the other tests it unstepped)",
+    technique="same relational abstract interpretation as C01 applied to every load and reading effect; facts must hold at the evaluation of the access (deref-before-counter loops fail); NUL-bounded libc readers on length-declared buffers are undischargeable by construction; sibling cross-check of symmetric copy loops (a counter one copy steps and tests against an object-size limit while the other tests it unstepped); terminator rule (no libc block reader on a string operand with a declared maximum as its length)",
     category="other",
     text="Each load, memcpy source, libc reader and helper call carries the obligation that the read range lies inside the declared extent (dmax of dest, slen/n/len of a length-declared source, local arrays, constant tables), including lower bounds for backward scans. 304 of 444 obligations are discharged; 22 known findings; 118 obligations in listed reach-limited functions are not claimed. A nested call to a library function that never writes its dest (42 search/compare functions, from the write summaries) is a read obligation on the length handed down. A pointer without a declared length that the function measures with strnlen_s/wcsnlen_s gets the measured length (+ terminator) as its extent from there on; other pointer parameters without a declared length carry the lower-bound obligation only (nothing is read in front of the buffer; searcher results are interior pointers of their argument), that they are read only up to their terminator is not decided. Thorough: also the no-slack configuration.",
     design_ref="DESIGN.md §3.2, §4 C02",
@@ -120,14 +120,14 @@ CHECKS = {
     note=TB + "; 32-bit wchar_t configuration; three fix: commits in /repo (two crashes on out-of-range code points; second code point truncated to 16 bits before the composition-list comparison; reorder/compose/wcsfc_s did not reject out-of-range code points); one known finding (U+037E stored as the reserved value 0: not decomposed; the repair contradicts an expectation pinned in the unedited test suite)"),
  "C06": dict(
     engine="pathflags",
-    technique="path-sensitive abstract interpretation with a 'destination budget exhausted before a terminator was copied' flag over the 10 non-truncating copy/concatenate functions; plus (in C05) a checked precondition 'measured strlen(src) < dmax' where the result of a nested copy is ignored; terminator-position typestate for the pointer-returning functions; byte accounting of the memory primitives (linear-arithmetic loop summaries + interval chaining); sibling cross-check of symmetric copy loops (budget counters identified by their start values)",
+    technique="path-sensitive abstract interpretation with a 'destination budget exhausted before a terminator was copied' flag over the 10 non-truncating copy/concatenate functions; plus (in C05) a checked precondition 'measured strlen(src) < dmax' where the result of a nested copy is ignored; terminator-position typestate for the pointer-returning functions; byte accounting of the memory primitives (linear-arithmetic loop summaries + interval chaining); sibling cross-check of symmetric copy loops (budget counters identified by their start values); overwrite rule (no zero fill starts at the pointer of a dominating store unless the branch established that element to be 0)",
     category="other",
     text="Decides the clause 'if the complete result does not fit the non-truncating functions fail instead of storing a shortened result': on no path does a success return follow the edge on which the counter initialised from dmax reached zero while data had been written and no terminator copied; every function has such exhausted paths (the rule is not vacuous) and they reach error returns. Also decided: the pointer returned by stpcpy_s/stpncpy_s on every success path is the address of the terminating null (the typestate remembers where the terminator was stored or proven, followed through merge phis). Also decided, for every length and alignment: the seven word-unrolled mem_prim_* primitives write every byte of dest[0 .. len*size) exactly once, in one direction, each element from the same offset of src (byte accounting: linear forms with quotient/remainder ties, a per-iteration progress rule for each of the 17 loops including the 16-way unrolled switch bodies, path walk with summarised loops, interval chaining at the return; mem_prim_move's precondition len >= 1 is established at its call sites); and the length strerrorlen_s announces for each library message equals the length of that message (length table vs message table, all rows). Equality of the bytes stored by the string functions with strcpy/strcat/..., results produced inside libc, and returned counts are value-level and not decided.",
     design_ref="DESIGN.md §4 C06",
     note=TB + "; only the no-silent-truncation clause is claimed"),
  "C14": dict(
     engine="capcheck",
-    technique="relational abstract interpretation of the two tokenizers with the string = merge(dest, *ptr) and capacity = entry value of *dmaxp: bounded accesses, consistency of the continuation pair, exactness of the delimiter-limit exit (off(delim cursor) == STRTOK_DELIM_MAX_LEN entailed both ways); CFG must-pass rule for storing *ptr; only-zero-stores rule; dominance rule for the continuation step; like-with-like rule for the delimiter comparisons",
+    technique="relational abstract interpretation of the two tokenizers with the string = merge(dest, *ptr) and capacity = entry value of *dmaxp: bounded accesses, consistency of the continuation pair, exactness of the delimiter-limit exit (off(delim cursor) == STRTOK_DELIM_MAX_LEN entailed both ways); CFG must-pass rule for storing *ptr; only-zero-stores rule; dominance rule for the continuation step; like-with-like rule for the delimiter comparisons; error-exit rule (every exit that reports through the handler returns a value known to be null)",
     category="other",
     text="Decides the bound clauses for all strings, dmax and delimiter sets: every access through the string cursor lies inside *dmaxp, the (*ptr, *dmaxp) pair handed back never permits access past the original *dmaxp, only zeros are stored into the string, a returned token implies *ptr was stored, and the 'delim is unterminated' exit fires exactly after STRTOK_DELIM_MAX_LEN scanned delimiters (so all of them take part), the continuation is set behind the cursor only where a dominating store nulled the element at the cursor (never behind the string's own terminator), string and delimiter characters are compared with the same width and extension, and no loop advances the string cursor over an element it has not compared with the terminator (inside the iteration, or at the bottom of the previous one and before entry). Not decided: that the sequence of calls yields each maximal token exactly once.",
     design_ref="DESIGN.md §4 C14",
